@@ -23,7 +23,7 @@ pub fn pix_line(input: &[u8], o: Opts, ops: &[Op], fw: Option<u32>, fh: Option<u
     let r = build(input, o);
     let q = match &r {
         Outcome::Ok(q) => q.clone(),
-        _ => return format!("{}{}", head, outcome_short(&r)),
+        _ => return format!("{}nobuild {}", head, outcome_short(&r)),
     };
     let mut margin = 4usize;
     let mut bg = [255u8, 255, 255, 255];
